@@ -23,7 +23,7 @@ ASSUMPTIONS = [
     "documented table shapes (n,) and (n,1) must both be accepted: an explicit rejection of one of them is a violation, not 'unsupported'",
 ]
 TIMEOUT = {"quick": 900, "thorough": 3000}
-MIN_COUNTERS = {"quick": {"obs_rows_checked": 2000, "param_samples_checked": 1500, "multi_batches_checked": 50},
+MIN_COUNTERS = {"quick": {"obs_rows_checked": 1200, "param_samples_checked": 900, "multi_batches_checked": 50},
                 "thorough": {"obs_rows_checked": 20000, "param_samples_checked": 20000, "multi_batches_checked": 500}}
 
 
